@@ -52,6 +52,14 @@ def dict_get_state(obj: Any, save_context: SaveContext) -> dict[str, Any]:
             # convert numpy value to python object
             key = key.item()  # type: ignore
         content[key] = get_state(value, save_context)
+    # Keys are written as json object keys, i.e. as text: 1 and "1", True and
+    # "true", None and "null" would end up as one key. Refuse instead of
+    # silently dropping an entry.
+    if len(json.loads(json.dumps(dict.fromkeys(content)))) != len(content):
+        raise TypeError(
+            "This dict cannot be persisted: some of its keys have the same json "
+            f"representation: {sorted(map(repr, content))}"
+        )
     res["content"] = content
     res["key_types"] = key_types
     return res
